@@ -68,7 +68,14 @@ def run_pair(case):
                 if rows is None or not (0 < i < len(rows)):
                     return False
                 return rows[i][2] == rows[i - 1][2]  # close == (normalised) open = previous close
-            fills = [e for e in fills if tie_minute(e)] or fills
+            # ... and, among those, minutes in which a second order ended too (a sibling exit cancelled by the fill, another fill): the
+            # order in which the minute's candidates were tried is then observable
+            ended = {}
+            for e2 in r1['trace']:
+                if e2['ev'] in ('executed', 'cancel'):
+                    ended[(e2.get('sym'), e2['t'])] = ended.get((e2.get('sym'), e2['t']), 0) + 1
+            ties = [e for e in fills if tie_minute(e)]
+            fills = [e for e in ties if ended.get((e.get('sym'), e['t']), 0) >= 2] or ties or fills
         elif len(case['cut_after']) > 2 and case['cut_after'][2]:
             # prefer the fills of liquidation orders when there are any
             liq_ords = {e['ord'] for e in r1['trace'] if e['ev'] == 'submit' and e.get('phase') == 'liquidation'}
